@@ -111,17 +111,18 @@ def concretize(v: Val, model: z3.ModelRef):
         fr = Fraction(r.numerator_as_long(), r.denominator_as_long())
         return frac_to_decimal(fr)
     if isinstance(v, VFloat):
+        mk = v.pycls if isinstance(v.pycls, type) and v.pycls is not float else float     # keep a float subclass (xs:float) in the replayed input
         if z3.is_true(ev(v.nan)):
-            return float('nan')
+            return mk('nan')
         i = ev(v.inf).as_long()
         if i:
-            return float('inf') if i > 0 else float('-inf')
+            return mk('inf') if i > 0 else mk('-inf')
         r = ev(v.val)
         f = Fraction(r.numerator_as_long(), r.denominator_as_long())
         x = float(f)
         if x == 0 and z3.is_true(ev(v.neg)):
-            return -0.0
-        return x
+            return mk(-0.0)
+        return mk(x)
     if isinstance(v, VStr):
         s = ev(v.t)
         return decode_z3_string(s)
